@@ -175,7 +175,7 @@ def create(args: Namespace) -> Namespace:
         check_path_writable(samplepath)
 
     logger.debug("Creating torrent from %s", args.content)
-    if args.meta_version == "1":
+    if str(args.meta_version) == "1":
         torrent = TorrentFile(**kwargs)
 
     else:
